@@ -953,6 +953,9 @@ class CompositeEnvelope:
             state_order.extend(product_state.state_objs)
             product_state.state_objs = []
         for so in target_state_objs:
+            if any(so is x for x in state_order):
+                # Already included together with its envelope partner
+                continue
             if (
                 hasattr(so, "envelope")
                 and so.envelope is not None
